@@ -3,6 +3,7 @@
 #
 # This source code is licensed under the BSD-style license found in the
 # LICENSE file in the root directory of this source tree.
+import gc
 import inspect
 import logging
 import random
@@ -316,15 +317,23 @@ class CallTracer:
         # from a function returning (or yielding) None. In the latter case, the
         # the last instruction that was executed should always be a return or a
         # yield.
-        typ = get_type(arg, max_typed_dict_size=self.max_typed_dict_size)
         last_opcode = frame.f_code.co_code[frame.f_lasti]
+        flags = frame.f_code.co_flags
+        if last_opcode == YIELD_VALUE_OPCODE and flags & inspect.CO_ASYNC_GENERATOR:
+            # An asynchronous generator suspends with YIELD_VALUE at its awaits
+            # and at its yields; only a yield hands out a value, and the
+            # interpreter passes that one wrapped in an internal object.
+            if type(arg).__name__ != "async_generator_wrapped_value":
+                return
+            (arg,) = gc.get_referents(arg)
+        typ = get_type(arg, max_typed_dict_size=self.max_typed_dict_size)
         trace = self.traces.get(frame)
         if trace is None:
             return
         elif last_opcode == YIELD_VALUE_OPCODE:
             # A coroutine suspending on an `await` also leaves its frame with
             # YIELD_VALUE; that is not a yield of the traced function.
-            if not frame.f_code.co_flags & inspect.CO_COROUTINE:
+            if not flags & inspect.CO_COROUTINE:
                 trace.add_yield_type(typ)
         else:
             if last_opcode in RETURN_OPCODES:
